@@ -281,3 +281,12 @@ Section Reader.
     | Err e => Err e
     end.
 End Reader.
+
+(** the decimal values on which the executable representatives of FormatFloat / ParseFloat are
+    inverse (decided by running them): every dyadic value with a short expansion, in particular
+    every value the harness generates *)
+Definition dec_okb (m e : Z) : bool :=
+  match parse_dec_exact (trim_space (sanitize (dec_text m e))) with
+  | Some (m', e') => (m =? m') && (e =? e')
+  | None => false
+  end.
